@@ -93,10 +93,6 @@ pub fn handle_replace(
             }
             return Ok(());
         },
-        OutputFormat::Summary if quiet => {
-            // Quiet mode - no output
-            return Ok(());
-        },
         _ => {},
     }
 
